@@ -13,6 +13,7 @@ import (
 	"reflect"
 	"strings"
 	"sync"
+	"sync/atomic"
 	"time"
 
 	"go.flow.arcalot.io/engine/config"
@@ -174,8 +175,10 @@ func (e *executableWorkflow) Execute(ctx context.Context, serializedInput any) (
 				} else {
 					e.logger.Debugf("Step %q stage %q declared that it will not produce an output (%s)", stepID, stage, err.Error())
 				}
+				l.notificationsInFlight.Add(1)
 				verifhook.Gate("wf.failure.beforeLock", "run", l, "step", stepID)
 				l.lock.Lock()
+				l.notificationsInFlight.Add(-1)
 				defer l.lock.Unlock()
 				verifhook.Emit("HEnter", "run", l, "h", "F", "step", stepID, "stage", stage)
 				defer verifhook.Emit("HExit", "run", l)
@@ -337,6 +340,11 @@ type loopState struct {
 	cancel          context.CancelFunc
 	workflowContext map[string][]byte
 	lifecycles      map[string]step.Lifecycle[step.LifecycleStageWithSchema]
+	// notificationsInFlight counts the step notifications (stage changes, completions, stage failures) that have
+	// been handed to the loop but are still waiting for the lock. The step that sent one has already updated its
+	// own state, so until the notification is handled the step states alone do not tell whether the workflow can
+	// still make progress.
+	notificationsInFlight atomic.Int32
 }
 
 func (l *loopState) terminateAllSteps() {
@@ -411,8 +419,10 @@ func (l *loopState) onStageComplete(
 	previousStageOutput *any,
 	wg *sync.WaitGroup,
 ) {
+	l.notificationsInFlight.Add(1)
 	verifhook.Gate("wf.handler.beforeLock", "run", l, "step", stepID)
 	l.lock.Lock()
+	l.notificationsInFlight.Add(-1)
 	defer func() {
 		if previousStage != nil {
 			l.checkForDeadlocks(3, wg)
@@ -757,6 +767,11 @@ func (l *loopState) checkForDeadlocks(retries int, wg *sync.WaitGroup) {
 		hasReadyNodes,
 	)
 	if counters.starting == 0 && counters.running == 0 && !hasReadyNodes && !l.outputDone {
+		if retries <= 0 && l.notificationsInFlight.Load() > 0 {
+			// A step has something to tell that has not been handled yet: it may be exactly what makes the
+			// workflow progress. Look again once it has been handled instead of giving up now.
+			retries = 1
+		}
 		if retries <= 0 {
 			verifhook.Emit("ErrPush", "run", l, "kind", "nosteps", "len", len(l.recentErrors))
 			l.reportError(&ErrNoMorePossibleSteps{
